@@ -86,8 +86,14 @@ pub fn run_inner<'a>(input: TokenStream<'a>) -> IResult<'a, Leaf> {
         6
     } else if !is_semic(t.get(7)) {
         7
-    } else {
+    } else if !is_semic(t.get(8)) {
         8
+    } else if !is_semic(t.get(9)) {
+        9
+    } else if !is_semic(t.get(10)) {
+        10
+    } else {
+        11
     };
     Ok((
         input.advance(n),
@@ -103,7 +109,7 @@ impl Parser for Leaf {
     }
 }
 
-pub const M: usize = 10; // capacity of the new-token buffer
+pub const M: usize = 12; // capacity of the new-token buffer
 
 fn pick(old: &[u8; M], ik: &[u8; 2], j: usize, ds: usize, de: usize, ins: usize, new_len: usize) -> u8 {
     if j >= new_len {
@@ -117,27 +123,27 @@ fn pick(old: &[u8; M], ik: &[u8; 2], j: usize, ds: usize, de: usize, ins: usize,
     }
 }
 
-/// Builds old kinds (N <= 6 tokens + Eof), a truthful change window and the new kinds (loop-free).
+/// Builds old kinds (N <= 8 tokens + Eof), a truthful change window and the new kinds (loop-free).
 /// returns (old kinds, new kinds, new_len, ds, de, ins)
 pub fn sym_edit<const N: usize>(max_ins: usize) -> ([u8; M], [u8; M], usize, usize, usize, usize) {
-    let raw: [u8; 6] = kani::any();
+    let raw: [u8; 8] = kani::any();
     let mut old = [K_EOF; M];
     macro_rules! set {
         ($($i:literal),*) => { $( if $i < N { kani::assume(raw[$i] <= K_OTHER); old[$i] = raw[$i]; } )* };
     }
-    set!(0, 1, 2, 3, 4, 5);
+    set!(0, 1, 2, 3, 4, 5, 6, 7);
     // old[N] == Eof; the window never touches Eof (lexer::update pops it first)
     let ds: usize = kani::any();
     let de: usize = kani::any();
     let ins: usize = kani::any();
-    kani::assume(N <= 6 && ds <= de && de <= N && ins <= max_ins && max_ins <= 2);
+    kani::assume(N <= 8 && ds <= de && de <= N && ins <= max_ins && max_ins <= 2);
     let ik: [u8; 2] = kani::any();
     kani::assume(ik[0] <= K_OTHER && ik[1] <= K_OTHER);
     let new_len = N + 1 - (de - ds) + ins;
     macro_rules! p {
         ($j:literal) => { pick(&old, &ik, $j, ds, de, ins, new_len) };
     }
-    let new = [p!(0), p!(1), p!(2), p!(3), p!(4), p!(5), p!(6), p!(7), p!(8), K_EOF];
+    let new = [p!(0), p!(1), p!(2), p!(3), p!(4), p!(5), p!(6), p!(7), p!(8), p!(9), p!(10), K_EOF];
     (old, new, new_len, ds, de, ins)
 }
 
@@ -146,6 +152,7 @@ pub fn build_tokens(k: &[u8; M]) -> std::mem::ManuallyDrop<[Token; M]> {
     std::mem::ManuallyDrop::new([
         tok(k[0], 0), tok(k[1], 1), tok(k[2], 2), tok(k[3], 3), tok(k[4], 4),
         tok(k[5], 5), tok(k[6], 6), tok(k[7], 7), tok(k[8], 8), tok(k[9], 9),
+        tok(k[10], 10), tok(k[11], 11),
     ])
 }
 
@@ -156,7 +163,7 @@ fn a2<const N: usize>() {
     let e: usize = kani::any();
     kani::assume(s < e && e <= N);
     macro_rules! run { ($($i:literal),*) => { $( if s <= $i && $i < e { kani::assume(old[$i] == K_SEMIC); } )* }; }
-    run!(0, 1, 2, 3, 4, 5);
+    run!(0, 1, 2, 3, 4, 5, 6, 7);
     kani::assume(old[e] != K_SEMIC);
     // reference frame: the node's range is relative to an enclosing Reference that starts
     // `rel` tokens in front of it (old absolute start of that Reference: s - rel)
@@ -224,7 +231,7 @@ fn c01_a2_q() {
 #[kani::proof]
 #[kani::unwind(3)]
 fn c01_a2_t() {
-    a2::<6>()
+    a2::<8>()
 }
 
 // ---------------------------------------------------------------------------
